@@ -99,4 +99,15 @@ example : ¬ disjoint1px ⟨0, 0, 10, 10⟩ ⟨5, 5, 10, 10⟩ := by
 example : encloses1px ⟨0, 0, 100, 100⟩ ⟨10, 10, 20, 20⟩ := by
   unfold encloses1px encloses px Box.right Box.bottom; norm_num
 
+/-! #### witnesses of the open findings (replayed on d2 through d2lib.Compile) -/
+
+/-- `x; a: {near: top-right}; b: {near: top-right}`: both constant-near shapes get the same box -/
+theorem C19_cx_same_near_constant : ¬ disjoint1px ⟨73, -86, 53, 66⟩ ⟨73, -86, 53, 66⟩ := by
+  unfold disjoint1px disjointTol px Box.right Box.bottom; norm_num
+
+/-- dagre, a leaf with `label.near: center-right` next to a container: child `n1.n2` is laid 158 px to the left of
+    its container `n1` -/
+theorem C19_cx_dagre_child_outside : ¬ encloses1px ⟨244, 307, 432, 126⟩ ⟨86, 337, 62, 66⟩ := by
+  unfold encloses1px encloses px Box.right Box.bottom; norm_num
+
 end D2V.Lay
